@@ -40,8 +40,12 @@ pub fn make_module() -> KMap {
             (KValue::Range(r), [KValue::Number(n)]) => match (r.start(), r.end()) {
                 (Some(start), Some((end, inclusive))) => {
                     let n = i64::from(n);
-                    let result = KRange::new(Some(start - n), Some((end + n, inclusive)));
-                    Ok(result.into())
+                    match (start.checked_sub(n), end.checked_add(n)) {
+                        (Some(start), Some(end)) => {
+                            Ok(KRange::new(Some(start), Some((end, inclusive))).into())
+                        }
+                        _ => runtime_error!("range.expanded: the result is out of bounds"),
+                    }
                 }
                 _ => runtime_error!("range.expanded can't be used with '{r}'"),
             },
